@@ -159,7 +159,7 @@ impl<const N: u32> PxE1<{ N }> {
                     float *= 0.5;
                     exp += 1;
                 }
-                let frac_length = (N - 3) as isize - (reg as isize);
+                let frac_length = (N as isize) - 3 - (reg as isize);
                 if frac_length < 0 {
                     if reg == N - 2 {
                         bit_n_plus_one = exp != 0;
@@ -229,7 +229,7 @@ impl<const N: u32> PxE1<{ N }> {
                 exp += 1;
             }
 
-            let frac_length = (N - 3) as isize - (reg as isize);
+            let frac_length = (N as isize) - 3 - (reg as isize);
             if frac_length < 0 {
                 if reg == N - 2 {
                     bit_n_plus_one = exp != 0;
